@@ -19,6 +19,7 @@ import (
 
 	"cvssmc/internal/dump"
 	"cvssmc/internal/ev"
+	"cvssmc/internal/lang"
 	"cvssmc/internal/lib"
 	"cvssmc/internal/spec"
 
@@ -81,6 +82,54 @@ func freshEntry(args []string) string {
 				m := en.Val(k).MethodByName("Value")
 				if m.IsValid() && m.Type().NumIn() == 0 {
 					fmt.Fprintf(&b, " w%d=%v", k, m.Call(nil)[0].Float())
+				}
+			}
+			return b.String()
+		case "fieldscore": // fieldscore <level> <bg>: a constructor result whose exported fields are assigned (nothing parsed in this process), scored top level first
+			level, _ := strconv.Atoi(args[1])
+			bi, _ := strconv.Atoi(args[2])
+			bg := scoreBackgrounds(3)[bi]
+			full := lang.Project(3, level, bg.tok)
+			o := fieldBuilt(3, level, bg.ver, full)
+			res := ""
+			for lv := level; lv >= 0; lv-- {
+				sv, _ := lib.Severity(lib.Sub(o, lv))
+				res += fmt.Sprint(lib.Score(lib.Sub(o, lv)), " ", sv, " ")
+			}
+			return res
+		case "weightsfirst": // weightsfirst <ver> <metric>: every weight (all argument combinations) BEFORE anything was parsed
+			ver, _ := strconv.Atoi(args[1])
+			en := lib.EnumOf(ver, args[2])
+			var b strings.Builder
+			ks := append([]int{en.Unknown}, en.Consts...)
+			for _, mn := range []string{"Value", "IsChanged", "IsValid", "IsDefined", "IsUnknown", "String"} {
+				for _, k := range ks {
+					m := en.Val(k).MethodByName(mn)
+					if !m.IsValid() {
+						continue
+					}
+					var rec func(i int, argv []reflect.Value)
+					rec = func(i int, argv []reflect.Value) {
+						if i == m.Type().NumIn() {
+							out := m.Call(argv)
+							fmt.Fprintf(&b, "%s(%d", mn, k)
+							for _, a := range argv {
+								fmt.Fprintf(&b, ",%d", a.Int())
+							}
+							fmt.Fprintf(&b, ")=%v ", out[0].Interface())
+							return
+						}
+						pt := m.Type().In(i)
+						if pt.Kind() != reflect.Int {
+							return
+						}
+						for x := 0; x <= 6; x++ {
+							a := reflect.New(pt).Elem()
+							a.SetInt(int64(x))
+							rec(i+1, append(append([]reflect.Value{}, argv...), a))
+						}
+					}
+					rec(0, nil)
 				}
 			}
 			return b.String()
@@ -407,7 +456,7 @@ func decodeFirstUseEntries(vers []int, levels []int) [][]string {
 					for _, s := range rotations(bg.ver, tok, level) {
 						es = append(es, []string{"decode", "3", fmt.Sprint(level), s})
 					}
-					es = append(es, []string{"envfirst", "3", fmt.Sprint(level), canonicalWritten(3, level, bg.ver, tok)})
+					es = append(es, []string{"envfirst", "3", fmt.Sprint(level), canonicalWritten(3, level, bg.ver, tok)}, []string{"fieldscore", fmt.Sprint(level), fmt.Sprint(bi)})
 				} else {
 					s := canonicalWritten(2, level, "", tok)
 					es = append(es, []string{"decode", "2", fmt.Sprint(level), s}, []string{"envfirst", "2", fmt.Sprint(level), s})
@@ -426,5 +475,3 @@ func firstUseScores(r *ev.Run, ver, lv int) {
 	}
 	firstUse(r, decodeFirstUseEntries([]int{ver}, levels))
 }
-
-var _ = reflect.TypeOf
